@@ -422,18 +422,29 @@ func (t *threadSafeList[T]) MoveAfter(element, position ListElement[T]) {
 
 // PushBackList inserts the values of the other List at the back of this List.
 func (t *threadSafeList[T]) PushBackList(other List[T]) {
+	// take the snapshot of the other list before locking: other may be this very list (or a list that is pushing
+	// this one concurrently), and reading it while holding our own mutex would deadlock.
+	values := other.Values()
+
 	t.mutex.Lock()
 	defer t.mutex.Unlock()
 
-	t.list.PushBackList(other)
+	for _, value := range values {
+		t.list.PushBack(value)
+	}
 }
 
 // PushFrontList inserts the values of the other List at the front of this List.
 func (t *threadSafeList[T]) PushFrontList(other List[T]) {
+	// see PushBackList
+	values := other.Values()
+
 	t.mutex.Lock()
 	defer t.mutex.Unlock()
 
-	t.list.PushFrontList(other)
+	for i := len(values) - 1; i >= 0; i-- {
+		t.list.PushFront(values[i])
+	}
 }
 
 // ForEach executes the given callback for the value of each element in the List. The iteration is aborted if the
